@@ -1,5 +1,6 @@
 """C03 - power deposited over the sweep equals the power assigned."""
 import copy
+import os
 
 import numpy as np
 from hypothesis import strategies as st
@@ -204,9 +205,194 @@ def scaling_cases(draw):
     return spec
 
 
+# ---------------------------------------------------------------------------------------------------------------------
+# binary-flux (VARPOW) power: the two intact single-assembly data sets of the repository
+ARC_FILES = ("pmatrx", "geodst", "ndxsrf", "znatdn", "labels", "nhflux", "ghflux")
+ARC_LEN = 3.75  # m, fixed by GEODST
+ARC_INCH = {"pin_pitch": 0.2575, "pin_diameter": 0.2128, "clad_thickness": 0.0138, "wire_pitch": 8.0,
+            "wire_diameter": 0.0433, "ftf": (4.3165, 4.5543), "pitch": 4.7244}
+
+
+def arc_text(sp, data_dir):
+    u = {"m": 0.0254, "cm": 2.54, "in": 1.0}[sp["len_unit"]]     # inches -> unit
+    um = {"m": 1.0, "cm": 100.0, "in": 1.0 / 0.0254}[sp["len_unit"]]  # metres -> unit
+    g = ARC_INCH
+    L = []
+    L.append("[Setup]")
+    if sp.get("axial_mesh_size") is not None:
+        L.append("    axial_mesh_size = %.10g" % (sp["axial_mesh_size"] * um))
+    L.append("    calc_energy_balance = True")
+    L.append("    [[Units]]")
+    L.append("        temperature = K")
+    L.append("        length = %s" % sp["len_unit"])
+    L.append("        mass_flow_rate = kg/s")
+    L.append("[Power]")
+    if sp.get("total_power") is not None:
+        L.append("    total_power = %.10g" % sp["total_power"])
+    if sp.get("scaling") is not None:
+        L.append("    power_scaling_factor = %.10g" % sp["scaling"])
+    L.append("    [[ARC]]")
+    L.append("        fuel_material = %s" % sp["fuel_material"])
+    if sp.get("fuel_alloy"):
+        L.append("        fuel_alloy = %s" % sp["fuel_alloy"])
+    if sp.get("coolant_heating"):
+        L.append("        coolant_heating = %s" % sp["coolant_heating"])
+    if sp.get("power_model"):
+        L.append("        power_model = %s" % sp["power_model"])
+    for f in ARC_FILES:
+        L.append("        %s = %s" % (f, os.path.join(data_dir, f.upper())))
+    L.append("[Core]")
+    L.append("    coolant_inlet_temp = 623.15")
+    L.append("    coolant_material = %s" % sp["coolant"])
+    L.append("    length = %.10g" % (ARC_LEN * um))
+    L.append("    gap_model = none")
+    L.append("    assembly_pitch = %.10g" % (g["pitch"] * u))
+    L.append("    bypass_fraction = 0.0")
+    L.append("[Assembly]")
+    L.append("    [[fuel]]")
+    L.append("        num_rings = 10")
+    for k in ("pin_pitch", "pin_diameter", "clad_thickness", "wire_pitch", "wire_diameter"):
+        L.append("        %s = %.10g" % (k, g[k] * u))
+    L.append("        duct_ftf = %.10g, %.10g" % (g["ftf"][0] * u, g["ftf"][1] * u))
+    L.append("        duct_material = ht9")
+    L.append("        corr_mixing = %s" % sp["corr"][0])
+    L.append("        corr_friction = %s" % sp["corr"][1])
+    L.append("        corr_flowsplit = %s" % sp["corr"][2])
+    L.append("        corr_nusselt = DB")
+    regs = [(n, r) for n, r in (("lower", sp.get("lower")), ("upper", sp.get("upper"))) if r]
+    if regs:
+        L.append("        [[[AxialRegion]]]")
+        for n, r in regs:
+            L.append("            [[[[%s]]]]" % n)
+            L.append("                z_lo = %.10g" % (r["z_lo"] * um))
+            L.append("                z_hi = %.10g" % (r["z_hi"] * um))
+            L.append("                vf_coolant = %.6g" % r["vf"])
+            if r.get("model"):
+                L.append("                model = %s" % r["model"])
+    L.append("[Assignment]")
+    L.append("    [[ByPosition]]")
+    if sp.get("outlet_temp") is not None:
+        L.append("        fuel = 1, 1, 1, outlet_temp=%.10g" % sp["outlet_temp"])
+    else:
+        L.append("        fuel = 1, 1, 1, flowrate=%.10g" % sp["flowrate"])
+    return "\n".join(L) + "\n"
+
+
+def _poly_integral(arr):
+    """sum over items of the integral over zeta in [-1/2, 1/2] of sum_j a_j zeta^j (per axial cell)."""
+    if arr is None:
+        return 0.0
+    n = arr.shape[2]
+    w = np.array([((0.5) ** (j + 1) - (-0.5) ** (j + 1)) / (j + 1) for j in range(n)])
+    return np.tensordot(arr, w, axes=([2], [0])).sum(axis=1)
+
+
+def _arc_run(sp, tmp, tag):
+    import dassh
+    from .. import env
+    d = os.path.join(tmp, tag)
+    os.makedirs(d)
+    path = os.path.join(d, "input.txt")
+    with open(path, "w") as f:
+        f.write(arc_text(sp, os.path.join(env.REPO, "tests", "test_data", "single_asm_" + sp["dataset"])))
+    cwd = os.getcwd()
+    os.chdir(d)
+    try:
+        inp = drive.guarded("read", dassh.DASSH_Input, path)
+        r = drive.guarded("setup", dassh.Reactor, inp, calc_energy_balance=True)
+        a = r.assemblies[0]
+        pw = a.power
+        cell = np.diff(pw.z_finemesh)                       # cm
+        ref = float(np.sum(cell * (_poly_integral(pw.pin_power) + _poly_integral(pw.duct_power)
+                                   + _poly_integral(pw.coolant_power))))
+        assigned = float(a.total_power)
+        rtot = float(r.total_power)
+        drive.guarded("sweep", drive.sweep, r)
+        pd = observe.total_power_delivered(a)
+        return {"ref": ref, "assigned": assigned, "rtot": rtot, "pd": pd, "dzmin": float(np.min(r.dz)), "nz": len(r.z),
+                "zfm": np.array(pw.z_finemesh) * 1e-2, "nreg": len(a.region),
+                "Tout": float(a.active_region.avg_coolant_temp)}
+    finally:
+        os.chdir(cwd)
+
+
+def run_arc(spec):
+    """VARPOW power: (1) Assembly.total_power equals the harness' integral of the coefficient arrays, (2) the sweep deposits
+    exactly that, for any step size and any position of the bundle bounds, (3) normalisation and scaling: total = P*s, or
+    s times the un-normalised VARPOW total of a reference run of the same data set."""
+    import tempfile, shutil
+    o = Outcome()
+    tmp = tempfile.mkdtemp(prefix="vf_arc_")
+    try:
+        res = _arc_run(spec, tmp, "case")
+        base = dict(spec, total_power=None, scaling=None, axial_mesh_size=None, lower=None, upper=None)
+        ref0 = _arc_run(base, tmp, "base")
+    finally:
+        shutil.rmtree(tmp, ignore_errors=True)
+    s = 1.0 if spec.get("scaling") is None else spec["scaling"]
+    P = spec.get("total_power")
+    exp = (P if P is not None else ref0["assigned"]) * s
+    scale = max(abs(exp), 1e-300)
+    tol = 1e-9 + 2e-12 / res["dzmin"]
+    o.classes.update({"dataset": spec["dataset"], "norm": "given" if P is not None else "none", "scaled": s != 1.0,
+                      "regions": res["nreg"], "user_dz": spec.get("axial_mesh_size") is not None, "unit": spec["len_unit"],
+                      "fuel": spec["fuel_material"], "bc": "T" if spec.get("outlet_temp") is not None else "flow"})
+    zb = [r_[k] for r_ in (spec.get("lower"), spec.get("upper")) if r_ for k in ("z_lo", "z_hi")]
+    inside = [z for z in zb if 1e-9 < z < ARC_LEN - 1e-9 and np.min(np.abs(res["zfm"] - z)) > 1e-6]
+    o.classes["bound_inside_power_cell"] = len(inside)
+    o.check(abs(ref0["ref"] - ref0["assigned"]) <= 1e-9 * ref0["assigned"], "arc_base_total_vs_integral",
+            "%.10e vs %.10e" % (ref0["assigned"], ref0["ref"]))
+    o.check(abs(res["rtot"] - exp) <= 1e-9 * scale, "arc_reactor_total_power", "%.10e vs expected %.10e" % (res["rtot"], exp))
+    o.check(abs(res["assigned"] - exp) <= 1e-9 * scale, "arc_assembly_total_power",
+            "%.10e vs expected %.10e" % (res["assigned"], exp))
+    o.check(abs(res["ref"] - exp) <= 1e-9 * scale, "arc_profile_integral", "integral of the coefficient arrays %.10e vs %.10e"
+            % (res["ref"], exp))
+    dep = sum(res["pd"].values())
+    o.metric("arc_deposited_rel_err", abs(dep - exp) / scale)
+    o.check(abs(dep - exp) <= tol * scale, "arc_deposited_vs_assigned", "deposited %.10e vs assigned %.10e (%s)"
+            % (dep, exp, {k: "%.6e" % v for k, v in res["pd"].items()}))
+    o.check(all(v >= -1e-9 * scale for v in res["pd"].values()), "arc_negative_component", str(res["pd"]))
+    # without unrodded regions nothing may be booked as reflector power; with them something must be
+    if res["nreg"] == 1:
+        o.check(abs(res["pd"].get("refl", 0.0)) <= 1e-12 * scale, "arc_refl_power_without_region", str(res["pd"].get("refl")))
+    dep0 = sum(ref0["pd"].values())
+    o.check(abs(dep0 - ref0["assigned"]) <= (1e-9 + 2e-12 / ref0["dzmin"]) * ref0["assigned"], "arc_deposited_vs_assigned",
+            "base run: %.10e vs %.10e" % (dep0, ref0["assigned"]))
+    o.nontrivial = exp > 0 and (len(inside) > 0 or spec.get("axial_mesh_size") is not None or s != 1.0)
+    return o
+
+
+@st.composite
+def arc_cases(draw):
+    sp = {"kind": "arc", "dataset": draw(st.sampled_from(["refl", "vac"])),
+          "len_unit": draw(st.sampled_from(["m", "cm", "in"])),
+          "fuel_material": draw(st.sampled_from(["metal", "metal", "oxide", "nitride"])),
+          "coolant": draw(st.sampled_from(["sodium", "sodium_se2anl"])),
+          "corr": draw(st.sampled_from([["MIT", "NOV", "MIT"], ["CTD", "CTD", "CTD"], ["CTD", "CTS", "CTD"], ["UCTD", "UCTD", "UCTD"]]))}
+    sp["fuel_alloy"] = draw(st.sampled_from(["zr", "al"])) if sp["fuel_material"] == "metal" else None
+    sp["coolant_heating"] = draw(st.sampled_from(["sodium", "sodium", "nak", "lead", None]))
+    if sp["coolant_heating"] is None and sp["coolant"] != "sodium":
+        sp["coolant_heating"] = "na"       # (the coolant name must be one VARPOW knows when no heating material is named)
+    sp["power_model"] = draw(st.sampled_from([None, "distribute", "pin_only"]))
+    sp["total_power"] = gen.r6(draw(gen.logfl(1e4, 2e7))) if draw(st.booleans()) else None
+    sp["scaling"] = gen.r6(draw(gen.fl(0.1, 3.0))) if draw(st.booleans()) else None
+    sp["axial_mesh_size"] = gen.r6(draw(gen.logfl(0.002, 0.2))) if draw(st.booleans()) else None
+    model = st.sampled_from([None, "simple", "6node"])
+    if draw(st.booleans()):
+        sp["lower"] = {"z_lo": 0.0, "z_hi": gen.r6(draw(gen.fl(0.2, 1.7))), "vf": gen.r6(draw(gen.fl(0.15, 0.6))), "model": draw(model)}
+    if draw(st.booleans()):
+        sp["upper"] = {"z_lo": gen.r6(draw(gen.fl(2.0, 3.5))), "z_hi": ARC_LEN, "vf": gen.r6(draw(gen.fl(0.15, 0.6))), "model": draw(model)}
+    if draw(st.booleans()):
+        sp["outlet_temp"] = gen.r6(draw(gen.fl(700.0, 850.0)))
+    else:
+        sp["flowrate"] = gen.r6(draw(gen.logfl(8.0, 60.0)))
+    return sp
+
+
 def parts(tier):
     q = tier == "quick"
     return [
         Part("totals", run_total, strategy=total_cases(q), examples=96 if q else 3000),
         Part("scaling_pairs", run_scaling, strategy=scaling_cases(), examples=24 if q else 600, timeout=120),
+        Part("varpow_binary_flux", run_arc, strategy=arc_cases(), examples=32 if q else 600, timeout=180),
     ]
